@@ -208,6 +208,15 @@ JudgeC05(e) ==
              <<e.res # "nil" \/ e.consumed = e.n, what \o "consumed a number of bytes different from the record's length">>,
              <<e.res # "nil" \/ e.kind # "ref" \/ e.n = Len(RecEnc(c, e.rec)), what \o "record length differs from the reference encoding">>,
              <<e.res # "nil" \/ ValOf(e) = Norm(S, t, v), what \o "decoded value differs from the value written">> >>)
+    [] e.ev = "bigrec" ->
+        \* the value's first string / byte array stretched to e.k bytes by the harness (TLC does not enumerate payloads of
+        \* that size); the encoding is the real encoder's (e.n bytes = Size()), the statement is the same as for "srec"
+        LET what == "a record with a payload of " \o ToString(e.k) \o " bytes on a stream (" \o e.style \o "): " IN
+        IF e.style = "encode" THEN Bad(what \o "MarshalBebop fails or does not produce Size() bytes")
+        ELSE FirstBad(<<
+             <<e.res = "nil", what \o "DecodeBebop returned " \o e.res>>,
+             <<e.res # "nil" \/ e.consumed = e.n, what \o "consumed a number of bytes different from the record's length">>,
+             <<e.res # "nil" \/ e.tail_ok, what \o "decoded value differs from the value written">> >>)
     [] OTHER -> NAv
 
 \* C04: bytes written under the newer schema decode under the older one to the
